@@ -734,3 +734,49 @@ func init() {
 		r["(*sync.Map).LoadOrStore"] = func(in *Interp, fr *Frame, a []V) V { return TupleV{a[2], FalseT} }
 	})
 }
+
+// process-wide state in the standard library (C20)
+func init() {
+	extraIntrinsics = append(extraIntrinsics, func(in *Interp) {
+		r := in.intr
+		r["math/rand.Seed"] = func(in *Interp, fr *Frame, a []V) V { in.effect("global:math/rand.Seed"); return nil }
+		rnd := func(w int, name string) Intrinsic {
+			return func(in *Interp, fr *Frame, a []V) V {
+				in.effect("global:math/rand." + name)
+				if in.concreteGen != nil {
+					return BVConst(0, w)
+				}
+				return in.freshVar("rand", BVSort(w))
+			}
+		}
+		r["math/rand.Uint64"] = rnd(64, "Uint64")
+		r["math/rand.Int63"] = func(in *Interp, fr *Frame, a []V) V {
+			v := rnd(64, "Int63")(in, fr, a).(*Term)
+			return BV2(OpBVLshr, v, BVConst(1, 64))
+		}
+		r["math/rand.Int63n"] = func(in *Interp, fr *Frame, a []V) V {
+			in.effect("global:math/rand.Int63n")
+			n := a[0].(*Term)
+			if in.concreteGen != nil {
+				return BVConst(0, 64)
+			}
+			v := in.freshVar("rand", BVSort(64))
+			in.define(And(BVCmp(OpBVSle, BVConst(0, 64), v), BVCmp(OpBVSlt, v, n)))
+			return v
+		}
+		r["math/rand.Float64"] = func(in *Interp, fr *Frame, a []V) V {
+			in.effect("global:math/rand.Float64")
+			if in.concreteGen != nil {
+				return FP64Const(0)
+			}
+			b := in.freshVar("randf", BVSort(64))
+			f := FPFromBits(b)
+			in.define(And(FPCmp(OpFPLe, FP64Const(0), f), FPCmp(OpFPLt, f, FP64Const(1))))
+			return f
+		}
+		r["runtime/debug.SetGCPercent"] = func(in *Interp, fr *Frame, a []V) V {
+			in.effect("global:debug.SetGCPercent")
+			return BVConst(100, 64)
+		}
+	})
+}
